@@ -43,7 +43,8 @@ def _hook_script(rng, tags, st, sep):
             st['n'] += 1; ops.append('wclone /wobj h%d' % st['n'])
         elif r < 0.80: ops.append('walk')
         elif r < 0.86: ops.append('err')
-        elif r < 0.92: ops.append('living')
+        elif r < 0.90: ops.append('living')
+        elif r < 0.93: ops.append(rng.choice(('rmx', 'addx')))
         else: ops.append('wmove %s %s' % (t, rng.choice(tags)))
     return sep.join(ops)
 
